@@ -371,7 +371,7 @@ func (gb *gcpBalancer) getReadySubConnRef(boundKey string) (*subConnRef, bool) {
 					return gb.scRefs[sc], true
 				}
 				// Try to create fallback mapping.
-				if scRef, err := gb.picker.(*gcpPicker).getLeastBusySubConnRef(); err == nil {
+				if scRef := gb.leastBusyReadyRef(); scRef != nil {
 					gb.fallbackMap[boundKey] = scRef.subConn
 					return scRef, true
 				}
@@ -381,6 +381,25 @@ func (gb *gcpBalancer) getReadySubConnRef(boundKey string) (*subConnRef, bool) {
 		return gb.scRefs[sc], true
 	}
 	return nil, false
+}
+
+// leastBusyReadyRef returns the READY subConnRef with the least active streams
+// or nil if there is no READY subconn. Must be called holding the mutex lock.
+func (gb *gcpBalancer) leastBusyReadyRef() *subConnRef {
+	var minRef *subConnRef
+	for sc, state := range gb.scStates {
+		if state != connectivity.Ready {
+			continue
+		}
+		ref, ok := gb.scRefs[sc]
+		if !ok {
+			continue
+		}
+		if minRef == nil || ref.getStreamsCnt() < minRef.getStreamsCnt() {
+			minRef = ref
+		}
+	}
+	return minRef
 }
 
 func (gb *gcpBalancer) getSubConnRoundRobin(ctx context.Context) *subConnRef {
